@@ -39,7 +39,7 @@ def hunk_text_inst(ops, o, n, a, b):
     name = "c01l1_%s_o%dn%d%s%s" % (ops.replace(" ", "c").replace("-", "m").replace("+", "p"), o, n, "_nnlo" if a else "", "_nnln" if b else "")
     arr = ", ".join("b'%s'" % c for c in ops)
     call = "t_hunk_text::<%d, %d>([%s], %d, %d, %s, %s)" % (size, k, arr, o, n, str(a).lower(), str(b).lower())
-    return Instance(name, "parser", call, unwind=max(size, 30) + 2, unwindset={"memcmp.0": 6}, stubs=[FROM_UTF8_STUB], mem_gb=9, timeout_s=1800,
+    return Instance(name, "parser", call, unwind=max(size, 30) + 2, unwindset={"memcmp.0": 6}, stubs=[FROM_UTF8_STUB], mem_gb=9 if k <= 2 else 20, timeout_s=1800,
                     unwind_fns={"libpatch::patch::unified::parser::parse_hunk.0": k + 2, "memchr::memchr.0": 31},
                     sub="C01 lemma 1: hunk text -> Hunk", must_cover=["hunk text parsed"], sweep=("parser", "replay_sweep_hunk_text"),
                     params=dict(edit_script=ops, old_start=o, new_start=n, no_newline_old_last=a, no_newline_new_last=b))
@@ -52,8 +52,7 @@ def spec(tier, seed):
     short = [t for t in HUNK_TEXTS if len(t[0]) <= 2]
     two_line = [t for t in short if len(t[0]) == 2]
     texts = HUNK_TEXTS if not q else [t for t in short if t[0] in ("+", "-")][:6] + rotate(two_line, seed, 3)
-    if q:
-        texts = texts + CONTEXT_RESET[:1]
+    # (the three-line context-reset texts need > 9 GB: thorough tier only)
     seen = set()
     for t in texts:
         if t in seen:
